@@ -80,6 +80,15 @@ def run(ctx):
             r = ctx.tlc_check("chain", "MCPrune.tla", cfg, timeout=3000, coverage=(cfg == "Prune_thorough.cfg"))
             if cfg == "Prune_thorough.cfg":
                 vlib.require_actions_covered(r)
+    if thorough:
+        for wname in ("NeverCancelledMidSweep", "NeverCrashedMidSweep", "NeverHeaderPruned", "NeverTimeFloorBinds",
+                      "NeverL2PathPrunes"):
+            txt, _ = cfg_text("r1", True, max_steps=6)
+            txt = txt.split("INVARIANTS")[0] + "INVARIANTS %s\nCHECK_DEADLOCK FALSE\n" % wname
+            r = ctx.tlc_check("chain", "MCPrune.tla", "witness.cfg", files={"witness.cfg": txt}, timeout=900,
+                              expect_violation=True, label="witness " + wname)
+            if r["ok"]:
+                raise vlib.Broken("vacuity: %s is never violated, i.e. the situation is unreachable in the model" % wname)
     if not fixed:
         r = ctx.tlc_check("chain", "MCPrune.tla", "Prune_faithful.cfg", timeout=900, expect_violation=True,
                           label="faithful model (expected to violate)")
